@@ -1,13 +1,16 @@
 package main
 
 import (
+	"bufio"
 	"bytes"
 	"encoding/hex"
 	"fmt"
 	"os"
 	"reflect"
-	"time"
+	"strconv"
 	"strings"
+	"sync"
+	"time"
 
 	"github.com/bronlabs/bron-crypto/pkg/base/serde"
 )
@@ -183,6 +186,9 @@ func c12RunCase[T any](c *Ctx, r *Rng, tc c12Case[T], scale int) {
 		}
 		if scale > 1 {
 			perLeaf, sample = 0, 24
+			if tc.weight > 2 {
+				perLeaf, sample = 3, 8
+			}
 		}
 		for _, m := range c12ValueEdits(r, b1, tc.fam, perLeaf, sample) {
 			c12Mutant1(c, tc, v, m)
@@ -295,18 +301,50 @@ func c12Direct[T any](c *Ctx, tc c12Case[T]) {
 	}
 }
 
+// runC12: the generic part, then every registered type.  The types are independent (own Rng, own
+// value sources), so they run on a small worker pool; their lines are written in registration
+// order, so the stream is a function of the seed alone.
 func runC12(c *Ctx) {
 	scale := 1
 	if c.Thorough() {
 		scale = 12
 	}
 	c12Generic(c, scale)
-	for i, t := range c12Types {
-		r := NewRng(c.Seed, 12000+uint64(i))
-		t0 := time.Now()
-		t.run(c, r, scale)
-		if d := time.Since(t0); d > 2*time.Second {
-			fmt.Fprintf(os.Stderr, "c12: %s took %v\n", t.name, d)
+	workers := 6
+	if w, err := strconv.Atoi(os.Getenv("VERIF_WORKERS")); err == nil && w > 0 {
+		workers = w
+	}
+	type result struct {
+		buf   bytes.Buffer
+		stats map[string]int
+		dur   time.Duration
+	}
+	results := make([]*result, len(c12Types))
+	sem := make(chan struct{}, workers)
+	var wg sync.WaitGroup
+	for i := range c12Types {
+		results[i] = &result{stats: map[string]int{}}
+		wg.Add(1)
+		go func(i int) {
+			defer wg.Done()
+			sem <- struct{}{}
+			defer func() { <-sem }()
+			w := bufio.NewWriterSize(&results[i].buf, 1<<16)
+			sub := &Ctx{Prop: c.Prop, Tier: c.Tier, Seed: c.Seed, Out: w, Stats: results[i].stats}
+			t0 := time.Now()
+			c12Types[i].run(sub, NewRng(c.Seed, 12000+uint64(i)), scale)
+			_ = w.Flush()
+			results[i].dur = time.Since(t0)
+		}(i)
+	}
+	wg.Wait()
+	for i, rs := range results {
+		_, _ = c.Out.Write(rs.buf.Bytes())
+		for k, v := range rs.stats {
+			c.Stats[k] += v
+		}
+		if rs.dur > 5*time.Second {
+			fmt.Fprintf(os.Stderr, "c12: %s took %v\n", c12Types[i].name, rs.dur)
 		}
 	}
 }
